@@ -249,7 +249,7 @@ class Oracle:
         q = compile_prog(self.pt, self.m18, variant, opt)
         self.bump("pairs")
         self.bump("kind:" + kind)
-        if q["real"][0] in ("build-exc", "exc") and q["real"][1] in ("TealSeqError", "TealTypeError") and may_be_invalid and p["real"][0] == "ok":
+        if q["real"][0] in ("build-exc", "exc") and q["real"][1] in ("TealSeqError", "TealTypeError") and may_be_invalid:
             # a stand-alone Comment after a value-typed last element is not a well-typed Seq: not an annotation of this program
             # (subroutine bodies are constructed during compilation, hence "exc" as well)
             self.bump("variant-ill-typed:" + q["real"][1])
@@ -277,7 +277,8 @@ class Oracle:
                 self.bump("known:crash-one-side")
                 if self.known(F_CRASH, "a program on which compileTeal crashes (AssertionError in validateTree / RecursionError: the C20 defects) compiles once an annotation moves the loop away from the routine's first block, or vice versa"):
                     return
-            if pr[0] == "ok" and qr[0] == "exc" and tail and qr[1] == "TealCompileError":
+            if qr[0] == "exc" and tail and qr[1] == "TealCompileError" and (pr[0] == "ok" or pr[1] in PYTEAL_ERRORS):
+                # (when the plain program is rejected as well, the hidden Return makes compileSubroutine fail first)
                 self.bump("known:tail-compile-error")
                 if self.known(F_TAIL, "a stand-alone Comment after the final Return/Approve of the main routine makes compilation fail (TealCompileError) — and in a subroutine appends a dead retsub"):
                     return
@@ -288,6 +289,9 @@ class Oracle:
         if nonce_lit is not None:
             tq_cmp, found = strip_nonce(tq, nonce_lit)
             if not found:
+                if stream(self.m18, tp) == stream(self.m18, tq):
+                    self.bump("nonce-in-unreachable-code")      # the wrapped expression is never emitted (after Break/Continue/Return)
+                    return
                 self.violation("Nonce did not emit the documented `byte %s; pop` pair" % nonce_lit, prog, variant, opt)
                 return
         sp, sq = stream(self.m18, tp), stream(self.m18, tq_cmp)
@@ -523,11 +527,6 @@ def main(argv):
                 orc.pair(prog, var, opt, "%s: %s" % (name, desc), kind, nonce_lit=lit, force_run=(vi + j) % 5 == 0, may_be_invalid=(role == "seq.after-last"))
                 nvar += 1
     # directed: the three stream-changing classes under every option set (so that every KNOWN class is exercised where it applies)
-    directed = [
-        ("if-empty", ("comment-wrap", (1, 2))),      # Comment around the empty then-branch
-        ("store-load", ("comment-wrap", (2, 1))),    # Comment around the load after the store
-        ("sub-ret", None),
-    ]
     bd = dict(bases)
     for opt in opts_all:
         p = bd["if-empty"]
